@@ -8,7 +8,8 @@
     collectors, any interleaving of the threads' operations, any default collector at any point (SetDefault / CloseScope
     are ordinary operations of the program, including "no collector"). *)
 From Coq Require Import List NArith Bool.
-From TV Require Import SpanApi.Model SpanApi.Spec SpanApi.Proofs.
+From TV Require Import SpanApi.Model SpanApi.Spec SpanApi.Proofs SpanApi.ShapeSyntax SpanApi.Shapes SpanApi.ShapesProofs.
+From TVGen Require Gen_span.
 Import ListNotations.
 Local Open Scope N_scope.
 
@@ -156,3 +157,61 @@ Theorem C03_nonvacuous_ext :
   cnt TRecord (2, 1) (trace p_demo2) = 2%nat /\ cnt TFollows (2, 1) (trace p_demo2) = 1%nat.
 Proof. exact (conj demo2_wf demo2_trace). Qed.
 Print Assumptions C03_nonvacuous_ext.
+
+(** * The tie to the source: collector-call shapes
+
+    translators/span_shapes.py reads, on every run, one row per method of tracing/src/span.rs, tracing/src/instrument.rs,
+    tracing-futures/src/lib.rs, the span! macro and MacroCallsite::disabled_span — the ordered collector calls, the
+    conditions they sit under, calls of other methods, RAII guards and foreign code (vocabulary: SpanApi/ShapeSyntax.v) —
+    into TVGen.Gen_span.src_shapes.  The generated table IS the table the model was written against, and nothing in the
+    read methods was unrecognised: *)
+Theorem C03_source_shapes : Gen_span.src_shapes = model_shapes /\ Gen_span.gen_unrecognised = [].
+Proof. exact source_shapes. Qed.
+Print Assumptions C03_source_shapes.
+
+(** ... and that table is the one the model's micro-action compiler implements: whenever [compile] accepts an action, the
+    micro-actions it emits are those [emit_tbl] computes from the rows (flattening calls of other methods, putting the drop
+    of every RAII guard at the end of its function — also on unwind — and splitting in_scope / poll at the foreign code). *)
+Theorem C03_compile_from_shapes : forall o t a ms, compile o t a = Some ms -> emit_tbl model_shapes o t a = Some ms.
+Proof. exact compile_from_shapes. Qed.
+Print Assumptions C03_compile_from_shapes.
+
+(** The own-collector micro-actions mean: that call, at the Dispatch stored in the handle, about the handle's own id, and
+    nothing if the handle has no inner (the `if let Some(inner) = self.inner` of every row). *)
+Theorem C03_own_calls : forall d,
+  (forall e, md (MEnterE e) d = own_sem KEnter (val_of d (e_holder e)) (e_tid e) None d) /\
+  (forall e, md (MExitE e) d = own_sem KExit (val_of d (e_holder e)) (e_tid e) None d) /\
+  (forall n t, md (MRelease n t) d = own_sem KTryClose (val_of d n) t None d) /\
+  (forall r t, md (MRecord r t) d = own_sem KRecord (val_of d r) t None d) /\
+  (forall r r' t, md (MFollows r r' t) d = own_sem KFollows (val_of d r) t (id_of_val (val_of d r')) d) /\
+  (forall r n t, md (MCloneTo r n t) d = set_val (own_sem KCloneSpan (val_of d r) t None d) n (val_of d r)).
+Proof. exact md_own. Qed.
+Print Assumptions C03_own_calls.
+
+(** The constructor micro-actions are what the rows of span! / Span::new / new_root / child_of (-> make_with), Span::current
+    and Span::or_current compute on the thread's default dispatcher ([ctor]): new_span (or nothing under no collector),
+    current_span + clone_span, the disabled branch, the handle remembering that dispatcher. *)
+Theorem C03_constructors_from_shapes : forall n t d,
+  (forall h p, md (MNewSpan n t h p) d =
+               ctor_run model_shapes (new_entry h p) d n t (new_parg d p) (new_enabled d t h) SNone) /\
+  md (MCurrentTo n t) d = ctor_run model_shapes row_current d n t None true SNone /\
+  md (MOrCurrent n t) d = ctor_run model_shapes row_or_current d n t None true (val_of d n).
+Proof.
+  intros n t d. exact (conj (fun h p => md_new_from_shapes n t h p d)
+                            (conj (md_current_from_shapes n t d) (md_or_current_from_shapes n t d))).
+Qed.
+Print Assumptions C03_constructors_from_shapes.
+
+(** Non-vacuity of the shape interpreter: with the rows the two seeded mutants produce (in_scope = do_enter; f(); do_exit
+    — Instrumented::into_inner forgetting the span) the same actions compile to different micro-actions: an unwinding
+    in_scope no longer exits, into_inner no longer closes. *)
+Theorem C03_shapes_sensitive :
+  let o := mkOwn [(0, KHandle)] [mkEnt EScope 0 0] in
+  let e := mkEnt EScope 0 0 in
+  emit_tbl model_shapes o 0 (ScopeEnd true) = Some [MExitE e] /\
+  emit_tbl shapes_A o 0 (ScopeEnd false) = Some [MExitE e] /\
+  emit_tbl shapes_A o 0 (ScopeEnd true) = Some [] /\
+  emit_tbl model_shapes (mkOwn [(0, KFut)] []) 0 (IntoInner 0) = Some [MRelease 0 0; MMark 0 (MInnerDrop 0)] /\
+  emit_tbl shapes_B (mkOwn [(0, KFut)] []) 0 (IntoInner 0) = Some [MMark 0 (MInnerDrop 0)].
+Proof. exact shapes_sensitive. Qed.
+Print Assumptions C03_shapes_sensitive.
